@@ -1,5 +1,5 @@
 (* Entry point for the extracted executable: decodes cases, runs the model. *)
-From CV Require Import Base.Bytes Base.Glob Supp.Defs Supp.ParseDefs.
+From CV Require Import Base.Bytes Base.Glob Supp.Defs Supp.ParseDefs Supp.PairDefs.
 From CV Require Path.Defs.
 Local Open Scope N_scope.
 
@@ -187,6 +187,17 @@ Definition run (fields : list str) : list str :=
         match args with
         | [i; f; ln; sy] => [to_string (mkPL i f (zd ln) sy false)]
         | _ => BAD
+        end
+      else if tag_is tag [112;97;105;114] then                 (* "pair": n, (isend id sym line)* *)
+        let take_ev := fun (l : list str) =>
+          match l with
+          | e :: i :: sy :: ln :: r => Some (mkBE (bool_of_str e) i sy (zd ln), r)
+          | _ => None
+          end in
+        match take_list take_ev args with
+        | Some (es, _) => let '(bl, bad) := pair_blocks es in
+                          dec_of_N bad :: flat_map (fun b => [bk_id b; bk_sym b; dec_of_Z (bk_begin b); dec_of_Z (bk_end b)]) bl
+        | None => BAD
         end
       else BAD
   end.
